@@ -27,7 +27,7 @@ EXPLANATION = (
     'decoded in order with the table\'s format and size for fetch_as; R8 SyncLogger: samples enter one FIFO in callback order, leave one '
     'per __next__, the disconnect sentinel is queued after disconnect(), the enqueue is unconditional; R10 the sample fan-out (Caller.call) invokes every registered consumer once over a snapshot (shared with C07.R2).')
 ASSUMPTIONS = ['firmware reads log block records as type byte + 16-bit id (TOC) / 32-bit address (memory)']
-FLOORS = {'R9': 5, 'R1': 8, 'R2': 10, 'R3': 4, 'R4': 3, 'R5': 1, 'R6': 8, 'R7': 8, 'R8': 5, 'R10': 2}
+FLOORS = {'R9': 5, 'R1': 8, 'R2': 8, 'R3': 4, 'R4': 3, 'R5': 1, 'R6': 8, 'R7': 8, 'R8': 5, 'R10': 2}
 
 
 def check(ctx):
@@ -148,12 +148,41 @@ def check(ctx):
     ctx.inst('R2', cr, 'loop-until-done', norm(wl[0].test) == 'not is_done', 'messages are produced until every variable is placed')
     body = [norm(s) for s in wl[0].body]
     want_order = ['pk.set_header(5, CHAN_SETTINGS)', 'pk.data = (command, self.id)', 'is_done, next_to_add = self._setup_log_elements(pk, next_to_add)',
-                  'self.cf.send_packet(pk, expected_reply=(command, self.id))', 'command = self._cmd_append_block()']
+                  'self.cf.send_packet(pk, expected_reply=(command, self.id))']
     pos = [body.index(w) if w in body else -1 for w in want_order]
-    ctx.inst('R2', cr, 'message-shape', all(p >= 0 for p in pos) and pos == sorted(pos), 'each message: header (5, SETTINGS), data starts (command, id), records, one send, then the command becomes append; body %s' % body)
-    first = [s for s in cr.node.body if isinstance(s, ast.Assign) and norm(s.targets[0]) == 'command']
-    ctx.inst('R2', cr, 'first-command', len(first) == 1 and norm(first[0].value) == 'self._cmd_create_block()', 'the first message is a create')
+    gc = cfg_of(cr)
+
+    def command_table(nodes):
+        """{uses current protocol: command code} over the given assignments to `command`, helper calls read through"""
+        tbl = {}
+        for n in nodes:
+            v = n.ast.value
+            if isinstance(v, ast.Call) and isinstance(v.func, ast.Attribute) and norm(v.func.value) == 'self' and C.has(v.func.attr) and not v.args:
+                hf = C.method(v.func.attr)
+                hps, _ = paths_of(hf)
+                for p_ in hps:
+                    if p_.returned() is not None:
+                        tbl.setdefault(fact_key('self.useV2', True) in p_.fact_keys(), set()).add(fold_in(hf, p_.returned()))
+            else:
+                ks = gc.fact_keys_at(n)
+                v2 = True if fact_key('self.useV2', True) in ks else False if fact_key('self.useV2', False) in ks else None
+                tbl.setdefault(v2, set()).add(fold_in(cr, v))
+        return {k: (sorted(v)[0] if len(v) == 1 else sorted(v, key=str)) for k, v in tbl.items()}
+    cmd_nodes = [n for n in gc.nodes if n.kind == 'stmt' and isinstance(n.ast, ast.Assign) and norm(n.ast.targets[0]) == 'command']
+    wln = [n for n in gc.nodes if n.kind == 'while' and n.ast is wl[0]]
+    inside = {n.id for n in gc.loop_body_nodes(wln[0])} if wln else set()
+    snd = [n for n, c in gc.find(lambda q: method_call(q, 'send_packet')) if n.id in inside]
+    after_send = [n for n in cmd_nodes if n.id in inside]
+    before = [n for n in cmd_nodes if n.id not in inside]
+    ok_after = bool(after_send) and len(snd) == 1 and all(gc.dominates(snd[0], n) for n in after_send) and command_table(after_send) == {False: 1, True: 7}
+    ctx.inst('R2', cr, 'message-shape', all(p >= 0 for p in pos) and pos == sorted(pos) and ok_after,
+             'each message: header (5, SETTINGS), data starts (command, id), records, one send, then the command becomes append (1 legacy / 7 current); body %s; later commands %s'
+             % (body, command_table(after_send)))
+    ctx.inst('R2', cr, 'first-command', bool(before) and bool(wln) and all(gc.path_avoiding(wln[0], [n]) is None for n in before) and command_table(before) == {False: 0, True: 6},
+             'the first message is a create (0 legacy / 6 current); %s' % command_table(before))
     for fn, v2c, v1c in (('_cmd_create_block', 6, 0), ('_cmd_append_block', 7, 1)):
+        if not C.has(fn):
+            continue                 # inlined into create(): covered by the two tables above
         f = C.method(fn)
         ps, _ = paths_of(f)
         got = sorted(((fact_key('self.useV2', True) in p.fact_keys()), fold_in(f, p.returned())) for p in ps if p.returned() is not None)
